@@ -26,7 +26,9 @@ var docForms = []string{"none", "line", "two-lines", "block", "detached", "with-
 var kinds = []string{"type-ungrouped", "type-grouped", "field", "field-multi", "const-grouped", "const-ungrouped", "var-ungrouped",
 	"field-multiline-type", "type-grouped-multiline", "var-grouped-multiline-value", "type-ungrouped-multiline",
 	// declarations whose own line also holds a nested field list (parameters, inline struct fields, type parameters)
-	"field-func-type", "type-func-ungrouped", "type-generic-inline-struct", "field-inline-struct", "var-func-literal"}
+	"field-func-type", "type-func-ungrouped", "type-generic-inline-struct", "field-inline-struct", "var-func-literal",
+	// every declaration sits below an EMBEDDED field / embedded interface that has a trailing comment
+	"field-after-embedded-field", "method-after-embedded-interface"}
 
 var fileForms = []string{"plain", "CRLF line endings", "licence header, build constraint and an import before the declarations", "a second file of the package has comments on the same line numbers", "a //line directive after the package clause renames the file and renumbers the lines"}
 
@@ -110,6 +112,9 @@ func (l Layout) render(pkg string) (string, []expect) {
 	if l.File == 4 {
 		b.WriteString("//line grammar.y:100\n")
 	}
+	if strings.Contains(kind, "embedded") {
+		b.WriteString("import \"" + modPath + "/emb\"\n\n")
+	}
 	if l.File == 2 {
 		b.WriteString("import \"fmt\" // trailing comment of the import\n\n// doc of the import user\nvar _ = fmt.Sprint // trailing comment of the import user\n\n")
 	}
@@ -121,8 +126,11 @@ func (l Layout) render(pkg string) (string, []expect) {
 	case "var-grouped-multiline-value":
 		b.WriteString("var (\n")
 		indent = "\t"
-	case "field", "field-multi", "field-multiline-type", "field-func-type", "field-inline-struct":
+	case "field", "field-multi", "field-multiline-type", "field-func-type", "field-inline-struct", "field-after-embedded-field":
 		b.WriteString("type S struct {\n")
+		indent = "\t"
+	case "method-after-embedded-interface":
+		b.WriteString("type S interface {\n")
 		indent = "\t"
 	case "const-grouped":
 		b.WriteString("const (\n")
@@ -131,6 +139,12 @@ func (l Layout) render(pkg string) (string, []expect) {
 	for i := range l.Docs {
 		name := fmt.Sprintf("N%d", i+1)
 		d, doc, tags := docText(l.Docs[i], name, indent)
+		switch kind {
+		case "field-after-embedded-field":
+			b.WriteString([]string{"\temb.E1 // trailing comment of the embedded field E1\n", "\t*emb.E2 /* trailing comment of the embedded field E2 */\n", "\temb.E3 // trailing comment of the embedded field E3\n", "\temb.E4 // E4\n"}[i%4])
+		case "method-after-embedded-interface":
+			b.WriteString(fmt.Sprintf("\temb.I%d // trailing comment of the embedded interface I%d\n", i%4+1, i%4+1))
+		}
 		b.WriteString(d)
 		var comment []string
 		trail := ""
@@ -143,8 +157,10 @@ func (l Layout) render(pkg string) (string, []expect) {
 			b.WriteString("type " + name + " int" + trail + "\n")
 		case "type-grouped":
 			b.WriteString("\t" + name + " int" + trail + "\n")
-		case "field":
+		case "field", "field-after-embedded-field":
 			b.WriteString("\t" + name + " int" + trail + "\n")
+		case "method-after-embedded-interface":
+			b.WriteString("\t" + name + "() error" + trail + "\n")
 		case "field-multi":
 			b.WriteString("\t" + name + ", M" + name[1:] + " int" + trail + "\n")
 			exp = append(exp, expect{"M" + name[1:], doc, tags, comment})
@@ -178,7 +194,7 @@ func (l Layout) render(pkg string) (string, []expect) {
 	switch kind {
 	case "type-grouped", "const-grouped", "type-grouped-multiline", "var-grouped-multiline-value":
 		b.WriteString(")\n")
-	case "field", "field-multi", "field-multiline-type", "field-func-type", "field-inline-struct":
+	case "field", "field-multi", "field-multiline-type", "field-func-type", "field-inline-struct", "field-after-embedded-field", "method-after-embedded-interface":
 		b.WriteString("}\n")
 	}
 	if l.File == 1 {
@@ -209,7 +225,8 @@ type Case struct {
 func checkLayouts(c *core.Ctx, ls []Layout) {
 	dir := pipe.TempDir("c12")
 	defer os.RemoveAll(dir)
-	t := pipe.Tree{"go.mod": pipe.GoMod(modPath, "1.24")}
+	t := pipe.Tree{"go.mod": pipe.GoMod(modPath, "1.24"),
+		"emb/emb.go": "package emb\n\ntype (\n\tE1 struct{ A1 int }\n\tE2 struct{ A2 int }\n\tE3 struct{ A3 int }\n\tE4 struct{ A4 int }\n\tI1 interface{ M1() }\n\tI2 interface{ M2() }\n\tI3 interface{ M3() }\n\tI4 interface{ M4() }\n)\n"}
 	exps := make([][]expect, len(ls))
 	for i, l := range ls {
 		name := fmt.Sprintf("k%05d", i)
@@ -494,6 +511,13 @@ func lookup(p gengotypes.Package, name string) types.Object {
 			for i := 0; i < st.NumFields(); i++ {
 				if st.Field(i).Name() == name {
 					return st.Field(i)
+				}
+			}
+		}
+		if it, ok := s.Type().Underlying().(*types.Interface); ok {
+			for i := 0; i < it.NumExplicitMethods(); i++ {
+				if it.ExplicitMethod(i).Name() == name {
+					return it.ExplicitMethod(i)
 				}
 			}
 		}
